@@ -196,3 +196,8 @@ func cachePayloads(n *Node, h uint32) []*Payload {
 	sort.Slice(r, func(i, j int) bool { return r[i].Hash() < r[j].Hash() })
 	return r
 }
+
+// txSubscribed reads the unexported txSubscriptionOn flag.
+func txSubscribed(n *Node) bool {
+	return reflect.ValueOf(n.d).Elem().FieldByName("Context").FieldByName("txSubscriptionOn").Bool()
+}
